@@ -76,6 +76,12 @@ theorem execWord_sound {s : Simp} (hs : SimpSound s) {I : Interp} (hI : I.Std) (
 
 /-! ### the meaning of one step -/
 
+/-- the EVM outcome an end state reports: its kind `h` with the returned byte terms evaluated -/
+def haltWith : Evm.Halt → List Nat → Evm.Halt
+  | .success _, d => .success d
+  | .revert _, d => .revert d
+  | h, _ => h
+
 section
 variable (I : Interp) (env : Env) (code : List Nat) (p : Evm.Params) (w : Evm.World)
 variable (s : Simp) (o : Oracle) (cfg : Cfg)
@@ -84,8 +90,9 @@ variable (s : Simp) (o : Oracle) (cfg : Cfg)
 def Corr (st : SState) (f : Evm.Frame) (out : StepOut) : Prop :=
   (∃ st' f', out = contOut st' ∧ Sat I st'.path ∧ st'.visits = st.visits ∧
       CReach p w f f' ∧ R I env code p st' f') ∨
-  (∃ st0 h, out = haltOut st0 h ∧ st0.path = st.path ∧ Evm.step p w f = .halt w h) ∨
-  (∃ st0 r, out = stuckOut st0 r ∧ st0.path = st.path) ∨
+  (∃ st0 h data, out = haltOut st0 h .normal data ∧ st0.path = st.path ∧
+      Evm.step p w f = .halt w (haltWith h (data.map (·.eval I)))) ∨
+  (∃ e, out = { ends := [e] } ∧ e.st.path = st.path ∧ ((∃ r, e.out = .stuck r) ∨ e.tag ≠ .normal)) ∨
   (∃ st0 target c, out = jumpi s o cfg code st0 target c (st.pc + 1) ∧ c.WF ∧ st0.path = st.path ∧
       st0.visits = st.visits ∧
       (c.eval I = true → target ∈ Evm.validJumpdests code →
@@ -105,13 +112,24 @@ theorem Corr.cont1 {st' : SState} {f' : Evm.Frame} (hsat : Sat I st.path) (hp : 
     Corr I env code p w s o cfg st f (contOut st') :=
   Or.inl ⟨st', f', rfl, by rw [hp]; exact hsat, hv, CReach.single hstep, hR⟩
 
-theorem Corr.halt {st0 : SState} {h : Evm.Halt} (hp : st0.path = st.path) (hstep : Evm.step p w f = .halt w h) :
+theorem Corr.halt {st0 : SState} {h : Evm.Halt} (hp : st0.path = st.path) (hstep : Evm.step p w f = .halt w h)
+    (hh : haltWith h [] = h := by rfl) :
     Corr I env code p w s o cfg st f (haltOut st0 h) :=
-  Or.inr (Or.inl ⟨st0, h, rfl, hp, hstep⟩)
+  Or.inr (Or.inl ⟨st0, h, [], rfl, hp, by simp only [List.map_nil, hh]; exact hstep⟩)
+
+theorem Corr.haltData {st0 : SState} {h : Evm.Halt} {data : List T} (hp : st0.path = st.path)
+    (hstep : Evm.step p w f = .halt w (haltWith h (data.map (·.eval I)))) :
+    Corr I env code p w s o cfg st f (haltOut st0 h .normal data) :=
+  Or.inr (Or.inl ⟨st0, h, data, rfl, hp, hstep⟩)
 
 theorem Corr.stuck {st0 : SState} {r : StuckReason} (hp : st0.path = st.path) :
     Corr I env code p w s o cfg st f (stuckOut st0 r) :=
-  Or.inr (Or.inr (Or.inl ⟨st0, r, rfl, hp⟩))
+  Or.inr (Or.inr (Or.inl ⟨_, rfl, hp, Or.inl ⟨r, rfl⟩⟩))
+
+/-- an end state produced by a `MAX_MEMORY_SIZE` check: no claim (the limit is a modelling parameter) -/
+theorem Corr.limit {st0 : SState} {h : Evm.Halt} (hp : st0.path = st.path) :
+    Corr I env code p w s o cfg st f (haltOut st0 h .memLimit) :=
+  Or.inr (Or.inr (Or.inl ⟨_, rfl, hp, Or.inr (fun h => Tag.noConfusion h)⟩))
 
 /-- a concrete word on the symbolic stack -/
 theorem wordRel_con {n : Nat} (h : n < 2 ^ 256) : WordRel I (.bv 256 (.con n)) n :=
@@ -128,7 +146,7 @@ theorem wordRel_mkBV (hs : SimpSound s) {t : T} (ht : t.WF) {n : Nat} (hn : t.ev
 theorem corr_push (hR : R I env code p st f) (hsat : Sat I st.path) {v : HV} {n k : Nat} (hw : WordRel I v n)
     (hstep : Evm.step p w f = .next w { f with stack := n :: f.stack, pc := f.pc + k }) :
     Corr I env code p w s o cfg st f (contOut { st with pc := st.pc + k, stack := v :: st.stack }) := by
-  refine Corr.cont1 hsat rfl rfl hstep (hR.next' rfl rfl rfl rfl rfl rfl rfl ?_ ?_)
+  refine Corr.cont1 hsat rfl rfl hstep (hR.next' rfl rfl rfl rfl rfl rfl rfl rfl rfl ?_ ?_)
   · simp only [hR.pc]
   · exact StackRel.cons hw hR.stack
 
@@ -143,10 +161,10 @@ theorem corr_land (hR : R I env code p st f) {rest : List HV} {cs : List Nat} {d
     ∃ f2, Evm.step p w { f with stack := cs, pc := dst } = .next w f2 ∧
       R I env code p { st with pc := dst + 1, stack := rest } f2 := by
   have hR1 : R I env code p { st with pc := dst, stack := rest } { f with stack := cs, pc := dst } :=
-    hR.next' rfl rfl rfl rfl rfl rfl rfl rfl hstk
+    hR.next' rfl rfl rfl rfl rfl rfl rfl rfl rfl rfl hstk
   refine ⟨hR1, _, evm_jumpdest (f := { f with stack := cs, pc := dst }) ?_ (by simp only; omega), ?_⟩
   · simp only [hR.code]; exact jumpdest_opcode hv
-  · exact hR1.next' rfl rfl rfl rfl rfl rfl rfl rfl hstk
+  · exact hR1.next' rfl rfl rfl rfl rfl rfl rfl rfl rfl rfl hstk
 
 /-! ### the leaves of `step`, opcode class by opcode class -/
 
@@ -247,12 +265,13 @@ theorem corr_word (hs : SimpSound s) (hI : I.Std) (hR : R I env code p st f) (hs
   rw [wordStep_ok wop (List.take_append_drop (wordArity wop) f.stack).symm hcl] at hstep
   have hwr : WordRel I r (specOp wop (f.stack.take (wordArity wop))) := ⟨rwf, rw', rd⟩
   rw [Nat.mod_eq_of_lt (wordrel_lt hwr)] at hstep
-  refine Or.inl ⟨_, _, rfl, ?_, ?_, CReach.single hstep, hR.next rfl rfl rfl rfl rfl ?_ ?_ ?_⟩
+  refine Or.inl ⟨_, _, rfl, ?_, ?_, CReach.single hstep, hR.next rfl rfl rfl rfl rfl ?_ ?_ ?_ ?_⟩
   · exact (addConds_sat hs hauxwf _).2 ⟨hsat, raux⟩
   · rw [addConds_visits]
   · rw [addConds_pc]; simp only [hR.pc]
   · rw [addConds_stack]; exact StackRel.cons hwr (hstk.drop _)
   · exact addConds_substOk hs hauxwf (hR.subst.same rfl rfl)
+  · rw [addConds_mem]; exact hR.mem
 
 end
 end HalmosVerif.Lemmas.Sevm
